@@ -35,6 +35,17 @@ def _wrapped_canon(self, *a, **k):
     return perm
 
 
+def canonical_form(log: dict):
+    """The canonical form bliss returned, as the contract speaks about it: colour at each position and
+    adjacency between positions."""
+    names, order, color = log["names"], log["order"], log.get("color")
+    pos = {name: p for p, name in enumerate(order)}
+    idx = {name: i for i, name in enumerate(names)}
+    colours = [None if color is None else color[idx[name]] for name in order]
+    edges = sorted(tuple(sorted((pos[names[a]], pos[names[b]]))) for a, b in log["edges"])
+    return colours, edges
+
+
 def install_oracle_wrapper():
     igraph.Graph.canonical_permutation = _wrapped_canon
 
